@@ -85,8 +85,11 @@ int lbuf_paragraphbeg(struct lbuf *lb, int dir, int *row, int *off)
 		*row += dir;
 	while (*row >= 0 && *row < lbuf_len(lb) && strcmp("\n", lbuf_get(lb, *row)))
 		*row += dir;
-	*row = MAX(0, MIN(*row, lbuf_len(lb) - 1));
 	*off = 0;
+	if (*row < 0 || *row >= lbuf_len(lb)) {	/* no more paragraphs */
+		*row = MAX(0, MIN(*row, lbuf_len(lb) - 1));
+		return 1;
+	}
 	return 0;
 }
 
@@ -100,7 +103,11 @@ int lbuf_sectionbeg(struct lbuf *lb, int dir, char *sec, int *row, int *off)
 		*row += dir;
 	}
 	rstr_free(re);
-	*row = MAX(0, MIN(*row, lbuf_len(lb) - 1));
+	if (*row < 0 || *row >= lbuf_len(lb)) {	/* no more sections */
+		*row = MAX(0, MIN(*row, lbuf_len(lb) - 1));
+		*off = 0;
+		return 1;
+	}
 	*off = 0;
 	return 0;
 }
